@@ -896,6 +896,14 @@ func (s *session) startReadAndHandle() {
 		err = s.socket.ReadMessage(ctx.input)
 		verifGate("read.afterMessage", s)
 		if (err != nil && ctx.GetBodyCodec() == codec.NilCodecID) || !s.goonRead() {
+			if ctx.callCmd != nil {
+				// a reply was already bound to its call (bindReply holds the call's lock):
+				// complete that call here, or it is never completed and readDisconnected deadlocks on the lock
+				if err != nil {
+					ctx.stat = statBadMessage.Copy(err)
+				}
+				ctx.handleReply()
+			}
 			s.peer.putContext(ctx, false)
 			return
 		}
